@@ -6,6 +6,7 @@ Line-protocol handlers for area `subset` (C10).
 `subset.run`      V  model of `(*Font).Subset` under the iteration order recovered from `order=`
 `subset.check`    D  the property's clauses evaluated directly on the Go result `res=`
 `subset.writable` V  can the subset be written (CFF encoding contiguity) and how many glyphs come back
+`subset.cffrun`   V  (*cff.Outlines).Subset called directly, against the SubsetCFF model
 `subset.mustwrite` D the property's claim: every subset can be written and read back (known finding replay)
 -/
 namespace SfntV.Drive.Subset
@@ -377,6 +378,13 @@ def handle (op : String) (fs : List (String × String)) : String :=
         match s.encoding with
         | some e => if encodingContiguous e then s!"ok:{s.glyphs.length}" else "err:encoding"
         | none => s!"ok:{s.glyphs.length}"
+      | .err e => "err:" ++ e
+      | .panic _ => "panic"
+    else if op == "subset.cffrun" then
+      -- (*cff.Outlines).Subset: same transfer as SubsetCFF, no cmap / layout tables, no closure
+      if !f.isCFF then "not-cff" else
+      match runModel { f with cmaps := none, gsub := none, gpos := none } glyphs none with
+      | .ok s => showSub s
       | .err e => "err:" ++ e
       | .panic _ => "panic"
     else if op == "subset.mustwrite" then
